@@ -43,11 +43,16 @@ pub fn focus(p: P) -> bool {
     unsafe { FOCUS == p }
 }
 
-/// Property assertion, active only when the harness focuses on property `$p`.
+/// Property assertion.  Every property's assertions are compiled into every
+/// harness; the driver decides only those tagged with the property it was asked
+/// about (cbmc --property).  Kani's assert is check-then-assume, so a failing
+/// assertion of one property could hide a later failure of another on the same
+/// path; the nondeterministic guard removes that masking: the instance where the
+/// guard is false skips the assertion (and its assumption) altogether.
 #[macro_export]
 macro_rules! vcheck {
     ($p:ident, $cond:expr, $msg:literal) => {
-        if $crate::mk::focus($crate::mk::P::$p) {
+        if kani::any::<bool>() {
             assert!($cond, $msg);
         }
     };
@@ -86,7 +91,7 @@ pub fn any_errno() -> c_int {
 
 // ----------------------------------------------------- descriptor table ----
 
-pub const NFD: usize = 12;
+pub const NFD: usize = 16;
 pub const NPIPE: usize = 6;
 
 /// Identity of the open file description behind a descriptor.
